@@ -364,3 +364,49 @@ class RunModelStream(Stream):
 
     def nontrivial(self, case, out):
         return json.dumps([case['dataset'], case['mode']], sort_keys=True) if out['mode']['files'].get('main', {}).get('rows') else None
+
+
+# ------------------------------------------------------------------------------------------------ records of real output files as cases
+class RecordStream(Stream):
+    """every record of every XMAP file written by real runs (shared data sets, four modes) becomes one case, so that verified
+    checkers / models can be evaluated in Coq on what COMA actually wrote.  Subclasses define prelude/term/oracle."""
+    name = 'e2e_records'
+    shard = 400
+    parallel = False
+    mem_limit_gb = None
+    e2e_cls = E2EStream
+    skip_joined_main = False      # leave joined records of the main files to the file-level oracle (open finding F10)
+
+    def gen(self, rng, tier):
+        src = self.e2e_cls()
+        src.seed = getattr(self, 'seed', 0)
+        cases, seen = [], set()
+        for c in src.gen(rng, tier):
+            out = src.impl(c)
+            refs, qs = maps_of(out)
+            allm = out['modes'].get('all', {}).get('files', {})
+            second = {(x['q'], x['r'], x['ori']) for x in allm.get('_2', {}).get('rows', [])}
+            first = {(x['q'], x['r'], x['ori']) for x in allm.get('_1', {}).get('rows', [])}
+            for m, fk, r in all_records(out):
+                if r['r'] not in refs or r['q'] not in qs:
+                    continue
+                joined = fk == 'main' and m in ('best', 'joined', 'all') and (r['q'], r['r'], r['ori']) in first and (r['q'], r['r'], r['ori']) in second
+                if joined and self.skip_joined_main:
+                    continue
+                key = (r['q'], r['r'], r['ori'], r['alignment'], r['hit'], c['ds_seed'])
+                if key in seen:
+                    continue
+                seen.add(key)
+                cases.append(dict(dataset=c, mode=m, file=fk, nref=len(refs[r['r']]['labels']), nqry=len(qs[r['q']]['labels']),
+                                  rev=r['ori'] == '-', pairs=[list(p) for p in r['pairs']], hit=r['hit'], q=r['q'], r=r['r'], rest=r['rest'], joined=joined))
+        return cases
+
+    def impl(self, case):
+        return dict(recorded=True)
+
+    def classify(self, case, out):
+        return ['file=%s/%s' % (case['mode'], case['file']), 'rev' if case['rev'] else 'fwd', 'rest=%s' % case['rest'],
+                'pairs=%s' % ('1' if len(case['pairs']) == 1 else '2-9' if len(case['pairs']) < 10 else '10+')] + (['joined'] if case['joined'] else [])
+
+    def nontrivial(self, case, out):
+        return repr((case['q'], case['r'], case['rev'], case['pairs'])) if len(case['pairs']) >= 2 else None
